@@ -74,6 +74,11 @@ impl Socket {
     pub fn send(&self, message: &Message, addr: SocketAddr, Tracked(tr): Tracked<&mut Trace>) -> (r: Result<(), io::Error>)
         ensures final(tr).ev == old(tr).ev.push(Ev::Send(*message, addr))
     { unimplemented!() }
+//@begin fn src/socket.rs impl:Socket local_addr
+    pub fn local_addr(&self) -> (r: SocketAddr) ensures r == self.local_addr {
+        self.local_addr
+    }
+//@end
 //@begin fn src/socket.rs impl:Socket ip_version
     pub fn ip_version(&self) -> (r: IpVersion)
         ensures r == (if sa_is_v4(self.local_addr) { IpVersion::V4 } else { IpVersion::V6 }),
@@ -130,6 +135,9 @@ impl<'a> vstd::std_specs::iter::IteratorSpecImpl for ClosestNodes<'a> {
 }
 pub struct RoutingTable { pub node_id: NodeId, pub routers: HashSet<SocketAddr> }
 impl RoutingTable {
+    /// RoutingTable::load_contacts (table.rs: reads the table; outside the handler unit)
+    #[verifier::external_body]
+    pub fn load_contacts(&self) -> (HashSet<SocketAddr>, HashSet<SocketAddr>) { unimplemented!() }
     /// RoutingTable::new (contract of the real function: unit `routing`); the handler only ever sees the table behind its lock
     #[verifier::external_body]
     pub fn new(node_id: NodeId) -> RoutingTable { unimplemented!() }
